@@ -3690,6 +3690,18 @@ def t_routetext( ctx ):
         res.ok( src, use[0], 'a non-empty trailer is appended to the result for validation by the caller\'s trailer parser' )
     elif tr is not None:
         res.bad( src, tr, 'trailer', 'components that do not form port/link pairs must be kept (and then validated or rejected), not dropped' )
+    # the walk over the ELEMENTS of a list ( a JSON text, or a list the caller built ) ends when the list ends - not at an element that happens
+    # to be null / 0 / "" / false: `next( it, None )` with `while <element>:` takes such an element for the end, what follows it is never
+    # looked at and what precedes it is accepted ( '[null]' spells the empty path - the simple-device personality -, '["1/0", null]' the path 1/0 )
+    walks = [ c for c in ast.walk( fn ) if is_call_to( c, 'next' ) and len( c.args ) == 2 ]
+    for c in walks:
+        dflt = c.args[1]
+        falsy_marker = isinstance( dflt, ast.Constant ) and not dflt.value
+        if falsy_marker:
+            res.bad( src, c, 'parse_route_path walks the elements with %s' % norm_text( ast.unparse( c )),
+                     'an element that is null ( or 0, "", false ) is taken for the end of the list: the text denotes fewer segments than it spells instead of being refused ( "route_path unhandled" )' )
+        else:
+            res.ok( src, c, 'the element walk ends at a marker no element can be ( %s )' % norm_text( ast.unparse( dflt )))
     return res
 
 
